@@ -20,6 +20,7 @@ class Check:
         self.t0 = time.time()
         self.exact_rules = set()
         self.facts = None
+        self.extra_facts = []
         self._dist = None
         self.instances = []   # dicts: rule, site, function, construct, ok, detail, variants
         self.notes = []
@@ -86,6 +87,8 @@ class Check:
             unknown = []
             seen_variants = set()
             fns = list(self.facts.functions if self.facts is not None else [])
+            for ef in self.extra_facts:
+                fns += list(ef.functions)
             primary = {golden.key(fn) for fn in fns if fn.kind in ('pattern', 'plain')}
             for fn in fns:
                 if '/tests/' in (fn.file or '') or '/witness/' in (fn.file or ''):
@@ -255,3 +258,44 @@ class Check:
                 print('VIOLATION property=%s replay=%s' % (self.pid, path))
             return 1
         return 0
+
+
+class FilteredCheck:
+    """view of a Check through which another property's rule module reports only the listed rules (see `ALSO` in the rule modules)"""
+
+    def __init__(self, chk, rids, origin):
+        self._c = chk
+        self._r = rids
+        self._o = origin
+
+    def rule(self, rid, text, floor=0):
+        if rid in self._r:
+            self._c.rule(rid, '[rule of %s] %s' % (self._o, text), floor=floor)
+
+    def instance(self, rid, *a, **kw):
+        if rid in self._r:
+            return self._c.instance(rid, *a, **kw)
+        return a[2] if len(a) > 2 else kw.get('ok', True)
+
+    def obligation(self, rid, *a, **kw):
+        if rid in self._r:
+            return self._c.obligation(rid, *a, **kw)
+        return a[2] if len(a) > 2 else True
+
+    def require(self, cond, text):
+        return cond
+
+    def broke(self, text):
+        pass
+
+    def note(self, text):
+        pass
+
+    def exact(self, *rids):
+        self._c.exact(*[r for r in rids if r in self._r])
+
+    def analysed(self, fn):
+        pass
+
+    def __getattr__(self, name):
+        return getattr(self._c, name)
